@@ -683,6 +683,36 @@ func (m *ledgerMon) check(h uint32, b *BlockSpec, prevDump, dump []string, prevW
 			m.violate("bank:row-offschedule", "bank row outside the era that records it", h)
 		}
 	}
+	// "the bank ledger records the amount available, used and requested for that block": a rated
+	// block of the bank-table era has its row, and the row is filled in (it is inserted with
+	// -1 / -1 and completed by the bank pass) with what the block's PEG requests were paid
+	if h >= a.V4 && h < a.V20 && applied && len(L.Rates[int64(h)]) > 0 {
+		if row, ok := L.Bank[int64(h)]; !ok {
+			m.violate("bank:row-missing", "a rated block of the bank-table era has no bank row", h)
+		} else {
+			var paid int64
+			mixed := false
+			for _, bb := range L.B {
+				if bb.exec != int64(h) {
+					continue
+				}
+				if L.MixedPegBatch(bb.hash) {
+					mixed = true
+				}
+				for _, t := range L.T[bb.hash] {
+					if t.action == 2 && t.toAsset == "PEG" {
+						paid += t.toAmount
+					}
+				}
+			}
+			m.rep.Count("bank:row-checked")
+			if row[1] < 0 || row[2] < 0 {
+				m.violate("bank:row-not-filled", fmt.Sprintf("bank row of the block: used %d, requested %d (placeholders left)", row[1], row[2]), h)
+			} else if !mixed && row[1] != paid {
+				m.violate("bank:row-used", fmt.Sprintf("bank row says %d PEG used, the block's executed requests were paid %d", row[1], paid), h)
+			}
+		}
+	}
 }
 
 // balMapDiff: first difference between two balance tables (absent = zero), "" when equal
